@@ -301,7 +301,9 @@ PROPS = {
                   ("Bug_CurrentInPlace", DUR, "MC_RainDur_small.cfg", None),
                   ("Bug_RecoverSkipsOlderWal", DUR, "MC_RainDur_small.cfg", "Durable")],
         work=[dict(driver="crash", args=["--nops", "40", "--threads", "2", "--both-reuse"],
-                   quick=8, thorough=150),
+                   quick=6, thorough=150),
+              dict(driver="crash", args=["--nops", "25", "--threads", "2", "--early-reopen"],
+                   quick=6, thorough=100),
               dict(driver="crash", args=["--nops", "25", "--threads", "2", "--large",
                                          "--gen2-every", "9"], quick=4, thorough=60)]),
     "C08": dict(
